@@ -145,6 +145,8 @@ func runC09(args []string) error {
 		lens = append(lens, l)
 	}
 	big := []int{65534, 65536, 65538, 131070, 131072, 131074}
+	// >= 65536 SIMD blocks of 32 bytes in one call (a 16-bit loop counter would wrap): 2 MiB and beyond
+	huge := []int{2097152, 2097152 + 70, 4194304 + 34}
 	consts := []int{0, 1, 2, 3, 0x8000, 0xFFFF}
 	oneCase := func(path int, op string, cst, n, inOff, outOff int, layout string) error {
 		gin, err := allocGuarded(n, layout, inOff)
@@ -169,7 +171,7 @@ func runC09(args []string) error {
 			// rest is compared here with T.Times (bound to the field by C08) and reported as a flag
 			nw := n / 2
 			keep := map[int]bool{}
-			for _, ctr := range []int{0, 32768, nw - 1, nw / 2} {
+			for _, ctr := range []int{0, 32768, nw - 1, nw / 2, 1 << 20, 1<<20 + 35, 1 << 21} {
 				for k := ctr - 40; k <= ctr+40; k++ {
 					if k >= 0 && k < nw {
 						keep[k] = true
@@ -265,6 +267,15 @@ func runC09(args []string) error {
 				for _, layout := range []string{"end", "start"} {
 					if err := oneCase(path, op, 1+rng.Intn(65535), n, 0, 0, layout); err != nil {
 						return err
+					}
+				}
+			}
+			if path <= 2 || thorough {
+				for hi, n := range huge {
+					if hi < 2 || thorough {
+						if err := oneCase(path, op, 1+rng.Intn(65535), n, 0, 0, []string{"end", "start"}[hi%2]); err != nil {
+							return err
+						}
 					}
 				}
 			}
